@@ -73,6 +73,7 @@ type Stream struct {
 	dataChanMux      sync.RWMutex  // Read-write lock protecting dataChan access
 	sinksMux         sync.RWMutex  // Read-write lock protecting sinks access
 	expansionMux     sync.Mutex    // Mutex preventing concurrent expansion
+	consumeMux       sync.Mutex    // Held by the data processor while it receives from dataChan and by expansion while it migrates, so the consumer cannot take an item out of the middle of a migration (which would reorder rows)
 	retryMux         sync.Mutex    // Mutex controlling persistence retry
 	expanding        int32         // Expansion status flag using atomic operations
 	activeRetries    int32         // Active retry count using atomic operations
